@@ -305,7 +305,9 @@ def generate(method_cls):
     def t_globalR():
         ex = Exec({"scalars": {"self.parameters.r": R("r")},
                    "indexed": {"self.M": R("M"), "self.Z": R("Z")},
-                   "assume": {"curr_point is None": False, "left_point is None": False}})
+                   # `globalR != globalR` is the NaN guard of the repair F11: never true over an ordered field (the theorems'
+                   # setting); the Float driver and the implementation are compared on overflow-free runs
+                   "assume": {"curr_point is None": False, "left_point is None": False, "globalR != globalR": False}})
         t = ex.run(func_ast(method_cls.CalculateGlobalR).body, {"curr_point": V("O", "cur"), "left_point": V("O", "left")})
         return tree_value(t, "cur.globalR", None, False)
     attempt("calculateGlobalR", "(left cur : Pt α) (r M Z : α)", "α",
